@@ -106,4 +106,162 @@ theorem dirs_nil_zero (mode : Mode) (M : Mat) (g : Int) (a b : Seq) (p : Nat × 
           · exact h.1.2 h1.symm
           · exact h.2 h1.symm
 
+/-- outside local mode the trace table has no bits only at the origin -/
+theorem dirs_nil_origin (mode : Mode) (hm : mode ≠ .local) (M : Mat) (g : Int) (a b : Seq) (p : Nat × Nat)
+    (h : traceDirs mode M g a b (valOf mode M g a b) p = []) : p = (0, 0) := by
+  obtain ⟨i, j⟩ := p
+  cases i with
+  | zero =>
+    cases j with
+    | zero => rfl
+    | succ j => cases mode <;> simp [traceDirs] at h; exact absurd rfl hm
+  | succ i =>
+    cases j with
+    | zero => cases mode <;> simp [traceDirs] at h; exact absurd rfl hm
+    | succ j =>
+      exfalso
+      have hcases := fun (x y z : Int) => max3_cases x y z
+      cases mode with
+      | global =>
+        simp only [traceDirs, valOf, reduceCtorEq, false_and, if_false] at h
+        simp only [List.append_eq_nil_iff, ite_eq_right_iff, reduceCtorEq, imp_false] at h
+        rcases hcases ((linRec .global M g a b).val i j + sub M a b i j)
+          ((linRec .global M g a b).val (i + 1) j + g) ((linRec .global M g a b).val i (j + 1) + g) with h1 | h1 | h1
+        · exact h.1.1 h1.symm
+        · exact h.1.2 h1.symm
+        · exact h.2 h1.symm
+      | semi =>
+        simp only [traceDirs, valOf, reduceCtorEq, false_and, if_false, true_and] at h
+        simp only [List.append_eq_nil_iff, ite_eq_right_iff, reduceCtorEq, imp_false] at h
+        rcases hcases ((linRec .semi M g a b).val i j + sub M a b i j)
+          ((linRec .semi M g a b).val (i + 1) j + if i + 1 = a.length then 0 else g)
+          ((linRec .semi M g a b).val i (j + 1) + if j + 1 = b.length then 0 else g) with h1 | h1 | h1
+        · exact h.1.1 h1.symm
+        · exact h.1.2 h1.symm
+        · exact h.2 h1.symm
+      | «local» => exact hm rfl
+
+
+/-- what a finished trace below cell `p` looks like: a walk ending in `p`, started where the trace table has no
+bits, scoring the value of `p`, followed by the columns collected so far -/
+def GoodTr (mode : Mode) (M : Mat) (g : Int) (a b : Seq) (p : Nat × Nat) (suffix aln : Aln) : Prop :=
+  ∃ pre p0, aln = pre ++ suffix ∧ walk p0 pre = some p ∧
+    scorePos (costOf mode M g a b) p0 pre = valOf mode M g a b p.1 p.2 ∧
+    traceDirs mode M g a b (valOf mode M g a b) p0 = []
+
+theorem good_step (mode : Mode) (M : Mat) (g : Int) (a b : Seq) (p : Nat × Nat) (d : Dir) (suffix aln : Aln)
+    (hd : d ∈ traceDirs mode M g a b (valOf mode M g a b) p)
+    (h : GoodTr mode M g a b (d.pred p) (d.col p :: suffix) aln) : GoodTr mode M g a b p suffix aln := by
+  obtain ⟨pre, p0, he, hw, hs, h0⟩ := h
+  obtain ⟨hstep, hval⟩ := dir_step mode M g a b p d hd
+  refine ⟨pre ++ [d.col p], p0, by simp [he], ?_, ?_, h0⟩
+  · rw [walk_append, hw]; simp [walk, hstep]
+  · rw [scorePos_append _ p0 (d.pred p) pre [d.col p] hw, hs, hval]; simp [scorePos]
+
+theorem runBranches_all (mx : Nat) (run : Dir → Nat → List Aln × Nat) (P : Aln → Prop) (ds : List Dir)
+    (h : ∀ d ∈ ds, ∀ c, ∀ x ∈ (run d c).1, P x) : ∀ c, ∀ x ∈ (runBranches mx run ds c).1, P x := by
+  induction ds with
+  | nil => intro c x hx; simp [runBranches] at hx
+  | cons d ds ih =>
+    intro c x hx
+    have ih' := ih (fun d' hd' => h d' (List.mem_cons_of_mem _ hd'))
+    simp only [runBranches] at hx
+    split at hx
+    · simp only [List.mem_append] at hx
+      rcases hx with hx | hx
+      · exact h d List.mem_cons_self _ x hx
+      · exact ih' _ x hx
+    · exact ih' _ x hx
+
+theorem followLin_good (mode : Mode) (M : Mat) (g : Int) (a b : Seq) (mx : Nat) :
+    ∀ (fuel : Nat) (p : Nat × Nat) (suffix : Aln) (c : Nat),
+      ∀ x ∈ (followLin (traceDirs mode M g a b (valOf mode M g a b)) mx fuel p suffix c).1,
+        GoodTr mode M g a b p suffix x := by
+  intro fuel
+  induction fuel with
+  | zero => intro p suffix c x hx; simp [followLin] at hx
+  | succ fuel ih =>
+    intro p suffix c x hx
+    simp only [followLin] at hx
+    split at hx
+    · rename_i hnil
+      simp at hx; subst hx
+      exact ⟨[], p, rfl, rfl, by simp [scorePos, dirs_nil_zero mode M g a b p hnil], hnil⟩
+    · rename_i d0 ds hds
+      simp only [List.mem_append] at hx
+      rcases hx with hx | hx
+      · have := runBranches_all mx _ (GoodTr mode M g a b p suffix) ds
+          (fun d hd c' y hy => good_step mode M g a b p d suffix y (by rw [hds]; exact List.mem_cons_of_mem _ hd)
+            (ih _ _ _ y hy)) c x hx
+        exact this
+      · exact good_step mode M g a b p d0 suffix x (by rw [hds]; exact List.mem_cons_self) (ih _ _ _ x hx)
+
+/-! counting -/
+
+theorem runBranches_count (mx : Nat) (run : Dir → Nat → List Aln × Nat) (ds : List Dir)
+    (h : ∀ d c, ((run d c).1.length + c ≤ (run d c).2 + 1) ∧ c ≤ (run d c).2 ∧ (c ≤ mx → (run d c).2 ≤ mx)) :
+    ∀ c, ((runBranches mx run ds c).1.length + c ≤ (runBranches mx run ds c).2) ∧
+      c ≤ (runBranches mx run ds c).2 ∧ (c ≤ mx → (runBranches mx run ds c).2 ≤ mx) := by
+  induction ds with
+  | nil => intro c; simp [runBranches]
+  | cons d ds ih =>
+    intro c
+    simp only [runBranches]
+    split
+    · rename_i hlt
+      obtain ⟨h1, h2, h3⟩ := h d (c + 1)
+      obtain ⟨i1, i2, i3⟩ := ih (run d (c + 1)).2
+      simp only [List.length_append]
+      refine ⟨by omega, by omega, fun _ => i3 (h3 (by omega))⟩
+    · exact ih c
+
+theorem followLin_count (dirs : Nat × Nat → List Dir) (mx : Nat) :
+    ∀ (fuel : Nat) (p : Nat × Nat) (suffix : Aln) (c : Nat),
+      ((followLin dirs mx fuel p suffix c).1.length + c ≤ (followLin dirs mx fuel p suffix c).2 + 1) ∧
+      c ≤ (followLin dirs mx fuel p suffix c).2 ∧ (c ≤ mx → (followLin dirs mx fuel p suffix c).2 ≤ mx) := by
+  intro fuel
+  induction fuel with
+  | zero => intro p suffix c; simp [followLin]
+  | succ fuel ih =>
+    intro p suffix c
+    simp only [followLin]
+    split
+    · simp; omega
+    · rename_i d0 ds hds
+      obtain ⟨b1, b2, b3⟩ := runBranches_count mx
+        (fun d c' => followLin dirs mx fuel (d.pred p) (d.col p :: suffix) c') ds (fun d c' => ih _ _ c') c
+      obtain ⟨r1, r2, r3⟩ := ih (d0.pred p) (d0.col p :: suffix)
+        (runBranches mx (fun d c' => followLin dirs mx fuel (d.pred p) (d.col p :: suffix) c') ds c).2
+      simp only [List.length_append]
+      refine ⟨by omega, by omega, fun hc => r3 (b3 hc)⟩
+
+/-- with enough fuel every call returns at least its own trace -/
+theorem followLin_nonempty (mode : Mode) (M : Mat) (g : Int) (a b : Seq) (mx : Nat) :
+    ∀ (fuel : Nat) (p : Nat × Nat) (suffix : Aln) (c : Nat), p.1 + p.2 < fuel →
+      (followLin (traceDirs mode M g a b (valOf mode M g a b)) mx fuel p suffix c).1 ≠ [] := by
+  intro fuel
+  induction fuel with
+  | zero => intro p _ _ h; omega
+  | succ fuel ih =>
+    intro p suffix c hf
+    simp only [followLin]
+    split
+    · simp
+    · rename_i d0 ds hds
+      have hd0 : d0 ∈ traceDirs mode M g a b (valOf mode M g a b) p := by rw [hds]; exact List.mem_cons_self
+      obtain ⟨hstep, _⟩ := dir_step mode M g a b p d0 hd0
+      have hq := stepPos_adv hstep
+      have hlt : (d0.pred p).1 + (d0.pred p).2 < fuel := by
+        generalize d0.pred p = q at hq ⊢
+        obtain ⟨qi, qj⟩ := q
+        generalize d0.col p = cc at hq
+        cases cc <;> simp [adv] at hq <;> subst hq <;> simp at hf ⊢ <;> omega
+      have := ih (d0.pred p) (d0.col p :: suffix)
+        (runBranches mx (fun d c' => followLin (traceDirs mode M g a b (valOf mode M g a b)) mx fuel (d.pred p)
+          (d.col p :: suffix) c') ds c).2 hlt
+      intro hnil
+      simp only [List.append_eq_nil_iff] at hnil
+      exact this hnil.2
+
+
 end BiotiteModel.C08
